@@ -7,4 +7,10 @@ d=/tmp/w/$name
 mkdir -p "$d"
 rsync -a --delete /repo/ "$d/repo/"
 rsync -a --delete --exclude work --exclude .git /verif/ "$d/verif/"
+# cargo's dep-info in the copied target still names /verif/harness files: force the hooked crates to be rebuilt
+# against the scratch harness by touching their roots
+for c in ntp-proto ntpd statime-algo statime-base statime-wire statime-csptp; do touch "$d/repo/$c/src/lib.rs"; done
+# drop what a scratch pair never needs
+rm -rf "$d/repo/target/debug/incremental" "$d/repo/target/debug/ntp-ctl" "$d/repo/target/debug/ntp-daemon" "$d/repo/target/debug/ntp-metrics-exporter"
+rm -f "$d"/repo/target/debug/deps/ntp_daemon-* "$d"/repo/target/debug/deps/ntp_ctl-* "$d"/repo/target/debug/deps/ntp_metrics_exporter-*
 echo "$d"
